@@ -255,6 +255,7 @@ class STEPD(BaseWindow):
     def reset(self) -> None:
         """Reset method."""
         super().reset()
+        self.warning = False
         self.correct_total = 0
         self.window_accuracy.clear()
 
